@@ -555,8 +555,10 @@ class Facts:
         self._closures_of = None
         self._callers = None
         self.name_aliases = []
+        self.inlined = []
         if 'qvfix' not in crates:
-            from . import pins
+            from . import pins, inline
+            self.inlined = inline.apply(self, set(pins.load()['params']))
             self.name_aliases = pins.apply(self)
 
     # ---- lookup ----------------------------------------------------------
